@@ -700,7 +700,12 @@ pub fn execute_l2(sc: &Scenario, mode: Mode, tag: &str, mut trace: Option<&mut V
                   }
                 }
                 if let Some(t) = r.new_text {
-                  candidates.push((class.clone(), t, tag, r.old_had_syntax_errors || !r.failures.is_empty()));
+                  // clause (iv) speaks about a *class* some other module exports
+                  let provider_is_class = named
+                    .as_deref()
+                    .and_then(|f| world_now.iter().find(|(m, _)| mod_display(m) == f).map(|(_, t)| crate::workload::c16::declares_class(t, class)))
+                    .unwrap_or(false);
+                  candidates.push((class.clone(), t, tag, r.old_had_syntax_errors || !r.failures.is_empty() || !provider_is_class));
                 }
               }
               if !candidates.is_empty() {
